@@ -16,7 +16,8 @@ from vplib import Case, Check, Rng
 
 PID = "C03"
 IMPORTS = ["Outcome", "Formula", "FormulaFlocq", "Graph"]
-E_ALLOC = 96
+E_ALLOC = 96         # model-only: register length beyond 2^20 (the code aborts in the allocator)
+E_EXPR_CYCLE = 97    # model-only: <Expression>s referring to each other cyclically (the code overflows the stack)
 
 
 def split_out(out, nops):
@@ -121,7 +122,7 @@ def gen_cases(ck):
 
 def has_alloc(mo, g):
     so = split_out(mo, len(g["ops"]))
-    return so is None or any(r[:2] == [1, E_ALLOC] for r in so[0])
+    return so is None or any(r[:2] in ([1, E_ALLOC], [1, E_EXPR_CYCLE]) for r in so[0])
 
 
 def replay(ck, binary):
@@ -192,7 +193,7 @@ def main():
     model = ck.run_model_terms(IMPORTS, [c.term for c in cases], per_eval=100)
     ck.phase("model")
     keep = [i for i, c in enumerate(cases) if not has_alloc(model[i], c.meta)]
-    ck.dist["excluded_absurd_register_length"] = len(cases) - len(keep)
+    ck.dist["excluded_absurd_register_length_or_cyclic_expression"] = len(cases) - len(keep)
     cases = [cases[i] for i in keep]
     model = [model[i] for i in keep]
     impl = ck.run_impl(binary, [c.line for c in cases], jobs=8)
